@@ -59,7 +59,7 @@ def main():
         rc, o = sh(['/venv/bin/python', '-m', 'pytest', '-q', '-p', 'no:cacheprovider', '--timeout=900'], cwd=wt)
         out['suite_with_patch'] = 'pytest rc=%d: %s' % (rc, o.strip().split('\n')[-1][-120:])
         out['suite_passes'] = rc == 0
-        rc1, o1 = sh(['/venv/bin/python', demo], cwd=wt, env={'PYTHONPATH': wt}, timeout=300)
+        rc1, o1 = sh(['/venv/bin/python', demo, wt], cwd=wt, env={'PYTHONPATH': wt}, timeout=300)
         out['demo_with_patch'] = {'rc': rc1, 'tail': o1.strip()[-300:]}
         # run the check against the patched scratch tree
         t0 = time.time()
@@ -79,7 +79,7 @@ def main():
         out['failing_input_found'] = any(ln.startswith('VIOLATION') and 'no-failing-input-found' not in ln
                                          for ln in lines)
         sh(['git', '-C', wt, 'reset', '-q', '--hard', 'HEAD'])
-        rc0, o0 = sh(['/venv/bin/python', demo], cwd=wt, env={'PYTHONPATH': wt}, timeout=300)
+        rc0, o0 = sh(['/venv/bin/python', demo, wt], cwd=wt, env={'PYTHONPATH': wt}, timeout=300)
         out['demo_without_patch'] = {'rc': rc0, 'tail': o0.strip()[-200:]}
         out['confirmed'] = bool(out['suite_passes'] and rc1 != 0 and rc0 == 0)
         if out['confirmed']:
